@@ -25,7 +25,7 @@ RULE = ("a case places secret fields (aes / xor / best) at the root, in sub-sche
         "opens during dumps/loads contains no key file other than the expected ones, (4) a fresh configuration (new "
         "objects; 1 in 40 in a new process) loading the document gets every plaintext back; non-trivial = >= 2 "
         "non-empty secrets at >= 2 depths; distinct = distinct case content")
-REQUIRED = ("layout:section-used-on-its-own-before-joining-the-tree", "key_file_names_a_shell_would_expand", "failed_loads_before_key_rotation", "saves_after_key_files_were_replaced", "items_handed_over_to_a_second_configuration", "sections_saved_without_a_reference_to_the_root", "saves_failed_for_missing_key_directory", "layout:two-types-one-schema-different-keyfiles", "layout:only-keyed-subtrees", "layout:transplanted-subconfig", "layout:names-inherited-file", "documents_scanned_for_tokens", "ciphertexts_decrypted_by_oracle", "keyfile_open_sets_checked",
+REQUIRED = ("key_file_names_reported_by_the_configurations_checked", "layout:section-used-on-its-own-before-joining-the-tree", "key_file_names_a_shell_would_expand", "failed_loads_before_key_rotation", "saves_after_key_files_were_replaced", "items_handed_over_to_a_second_configuration", "sections_saved_without_a_reference_to_the_root", "saves_failed_for_missing_key_directory", "layout:two-types-one-schema-different-keyfiles", "layout:only-keyed-subtrees", "layout:transplanted-subconfig", "layout:names-inherited-file", "documents_scanned_for_tokens", "ciphertexts_decrypted_by_oracle", "keyfile_open_sets_checked",
             "reloads_compared", "layout:root-ctor", "layout:root-attr", "layout:sub", "layout:ctype", "layout:default",
             "secrets_in_list_items", "rekey_after_first_use", "new_process_reloads")
 ASSUMPTIONS = ["only files under the sandbox root are considered; HOME is redirected so the default key file is sandboxed",
@@ -325,6 +325,15 @@ def run(case, ctx, res):
             cfg._key_filename = os.path.join(d, rkey)
             res.count("rekey_after_first_use")
         exp = expected_keys(case, d, default, rkey)
+        # what every configuration of the tree SAYS its key file is agrees with the nearest-ancestor rule
+        res.count("key_file_names_reported_by_the_configurations_checked")
+        for where, holder, pos in (("<root>", cfg, "s"), ("a", cfg.a, "a.s"), ("a.b", cfg.a.b, "a.b.s"), ("a.b.c", cfg.a.b.c, "a.b.c.s"),
+                                   ("t", cfg.t, "t.s"), ("t.inner", cfg.t.inner, "t.inner.s"), ("t2", cfg.t2, "t2.s")):
+            said = holder._key_filename
+            if os.path.expanduser(said) != exp[pos]:
+                res.viol("M-key", "reported-key-file:" + rname, "%s says its key file is %s, the nearest ancestor that names one gives %s" % (
+                    where, said, exp[pos]))
+                return
         for fmt in case["fmts"]:
             if not _save_and_check(cc, ctx, res, case, cfg, schema, fmt, positions, exp, log, allkeys, rname, rkey):
                 return
